@@ -1,11 +1,12 @@
 (** * Entry points the generic OCaml driver dispatches on. Model only, no proofs. *)
 From Coq Require Import List NArith ZArith Bool Floats.
-From HC Require Import Extract.Tok Extract.Run2.
+From HC Require Import Extract.Tok Extract.Run2 Extract.Query2.
 Import ListNotations.
 Open Scope N_scope.
 Definition entry (which : N) (ts : list tok) : list (list tok) :=
   match which with
-  | 1 => run_case2 ts
+  | 1 => run_case2 query2 ts
   | 2 => oracle_wf2_step ts
+  | 3 => oracle_query2 ts
   | _ => [[TZ (-2)]]
   end.
